@@ -203,6 +203,12 @@ var botEndScripts = []botScript{
 	{"roadBW", 3, []string{"b3", "a1", "a3", "b1", "a3>", "b2", "b3<"}, "road-B"},
 }
 
+// towerPrefix: White and Black feed a stack on d4 from c4 and e4 until it is eight high with a white stone on top and
+// White to move (22 plies)
+var towerPrefix = []string{"a8", "h8",
+	"c4", "e4", "c4>", "e4<", "c4", "e4", "c4>", "e4<", "c4", "e4", "c4>", "e4<",
+	"c4", "e4", "c4>", "h1", "c4", "g1", "c4>", "f1"}
+
 // mkScript parses and replays a script on the real rules (no move after the end of the game, the final
 // position of the declared class) and picks the `alt` answer: a flat on a square no move of the script touches
 // (legal at every ply), if there is one.
@@ -697,6 +703,20 @@ func genBotWorker(c *Ctx) {
 			mk("undo", colour, "MTatuUo", n-1, 4)
 		}
 		mk("last", "o", "MTato", n-1, 3)
+	}
+	// 8x8 games that build an eight-high stack and then lift all of it (the carry limit of the largest board), with each
+	// drop pattern that has a drop of 7 or 8: the wire spellings `M D4 D5 8`, `M D4 D6 7 1`, ... travel through
+	// ParseServer when the opponent (or a resume replay) plays them and through FormatServer when the bot does
+	for ti, last := range []string{"8d4+", "8d4+71", "8d4-17", "8d4+611", "8d4-116"} {
+		sc := botScript{name: fmt.Sprintf("tower%d", ti), size: 8, moves: append(append([]string{}, towerPrefix...), last)}
+		script, alt, hasAlt := mkScript(sc)
+		n := len(script)
+		for _, colour := range []string{"w", "b"} {
+			scns = append(scns, &botScn{name: fmt.Sprintf("tower%d-core-%s", ti, colour), colour: colour, size: 8, script: script, alt: alt, hasAlt: hasAlt,
+				pre: n - 2, menu: "MTaAt", depth: 3 + extra, gameNo: 900 + len(scns)})
+			scns = append(scns, &botScn{name: fmt.Sprintf("tower%d-resume-%s", ti, colour), colour: colour, size: 8, script: script, alt: alt, hasAlt: hasAlt,
+				replay: n, menu: "MTaAt", depth: 2 + extra, gameNo: 900 + len(scns)})
+		}
 	}
 	scns = append(fin, scns...)
 	budget := time.Duration(envInt("VERIF_C07_BUDGET_S", map[bool]int{false: 8, true: 900}[c.Thorough()])) * time.Second
